@@ -96,6 +96,14 @@ def run(v, tier):
         cases.append({'fam': 'op', 'p': x['p'], 'op': op, 'outp': a['out'][:5], 'oute': b['out'][:5],
                       'rp': a['res'] or {'kind': 'none'}, 're': b['res'] or {'kind': 'none'}})
     v.sample({'fam': 'op', 'p': cases[-1]['p'], 'op': cases[-1]['op'], 'rp': cases[-1]['rp']})
+    # matching between two applications of the same definition must be matching of their expansions (judged by TLC's
+    # matcher on the expansions: family "match" of Trace_PyOps)
+    import c13
+    vals = [pi2v.EV(0), pi2v.EV(1), pi2v.SV(0), pi2v.SYM(0), pi2v.MV(0), pi2v.MV(1), pi2v.IMP(pi2v.EV(0), pi2v.SV(1)), N['neg'](pi2v.EV(1)), N['bot']]
+    mcases = c13.match_cases(c13.same_notation_eqlists(rng, vals, 80 if quick else 800), rng)
+    for c in mcases:
+        c['p'], c['op'] = c['eqs'], {'fn': c['api'], 'seed': c['seed']}
+    cases += mcases
     res, _ = funcs.run_blocks(v, 'C12', 'Trace_PyOps', 'c12-trace', cases, '', bs=300, needs_sem=True)
     for f in res.fails:
         c = cases[f[1] - 1]
